@@ -57,25 +57,42 @@ Definition rebalance (cls : list cluster) (iw : Z) : list Z :=
 (* blue/green: clamp of a parsed weight *)
 Definition clamp256 (w : Z) : Z := if w <? 0 then 0 else if 256 <? w then 256 else w.
 
-(* blue/green deploy mode, reduced to what decides server weights.
-   An endpoint is (draining?, list of indices of the groups whose label it carries).
-   Group i gets Length = number of non-draining endpoints carrying it. *)
+(* blue/green, reduced to what decides server weights (buildBackendBlueGreenBalance).
+   An endpoint is (draining?, indices of the groups whose label its pod carries, in
+   increasing order). Group i gets Length = number of non-draining endpoints carrying it.
+   Draining (weight 0) endpoints are left out; endpoints matching no group get 0. *)
 Definition bg_endpoint := (bool * list nat)%type.
 
 Definition bg_lengths (ngroups : nat) (eps : list bg_endpoint) : list Z :=
   map (fun i => Z.of_nat (length (filter (fun e : bg_endpoint =>
          negb (fst e) && existsb (Nat.eqb i) (snd e)) eps))) (seq 0 ngroups).
 
-(* weight written on each endpoint: draining or unmatched -> 0; otherwise the
-   rebalanced weight of the last matching group (later groups overwrite) *)
-Definition bg_server_weights (ws : list Z) (iw : Z) (eps : list bg_endpoint) : list Z :=
+(* the group whose weight an endpoint ends up with: the last matching one *)
+Definition bg_group (ngroups : nat) (e : bg_endpoint) : option nat :=
+  match rev (filter (fun i => Nat.ltb i ngroups) (snd e)) with
+  | [] => None
+  | i :: _ => Some i
+  end.
+
+Definition bg_clusters (ws : list Z) (eps : list bg_endpoint) : list cluster :=
   let ws' := map clamp256 ws in
-  let lens := bg_lengths (length ws') eps in
-  let cls := map (fun p : Z * Z => {| cw := fst p; clen := snd p |}) (combine ws' lens) in
-  let out := rebalance cls iw in
+  map (fun p : Z * Z => {| cw := fst p; clen := snd p |}) (combine ws' (bg_lengths (length ws') eps)).
+
+(* mode deploy: weights rebalanced by the number of replicas of each group *)
+Definition bg_server_weights (ws : list Z) (iw : Z) (eps : list bg_endpoint) : list Z :=
+  let out := rebalance (bg_clusters ws eps) iw in
   map (fun e : bg_endpoint =>
     if fst e then 0 else
-    match rev (filter (fun i => Nat.ltb i (length ws')) (snd e)) with
-    | [] => 0
-    | i :: _ => nth i out 0
+    match bg_group (length ws) e with
+    | None => 0
+    | Some i => nth i out 0
+    end) eps.
+
+(* mode pod: the configured (clamped) weight of the group, as is *)
+Definition bg_pod_weights (ws : list Z) (eps : list bg_endpoint) : list Z :=
+  map (fun e : bg_endpoint =>
+    if fst e then 0 else
+    match bg_group (length ws) e with
+    | None => 0
+    | Some i => nth i (map clamp256 ws) 0
     end) eps.
